@@ -72,6 +72,13 @@ static int iteratorVarargReset(MPT_INTERFACE(iterator) *it)
 		va_copy(va->arg, va->org.arg);
 	}
 	va->fmt = fmt;
+	/* first argument is current value again */
+	if (fmt && *fmt) {
+		int ret;
+		if ((ret = _iteratorVarargNext(va)) < 0) {
+			return ret;
+		}
+	}
 	return fmt ? strlen(fmt) : 0;
 }
 
